@@ -696,7 +696,8 @@ extern "C" int __wrap_gettimeofday (struct timeval *tv, void *tz)
 // ---- allocation ledger (pass-through to the sanitizer allocator)
 
 extern "C" void *__wrap_malloc (size_t n)
-{	void *p = __real_malloc (n) ;
+{	if (in_lib () && n > (256u << 20)) { errno = ENOMEM ; return nullptr ; }		// see __wrap_realloc
+	void *p = __real_malloc (n) ;
 	if (p && in_lib ())
 	{	g_os->in_lib = false ; g_os->ledger [p] = n ; g_os->lib_allocs ++ ; g_os->lib_alloc_bytes += n ; g_os->in_lib = true ;
 		if (g_os->mem_fill >= 0) memset (p, g_os->mem_fill, n) ;
@@ -704,12 +705,16 @@ extern "C" void *__wrap_malloc (size_t n)
 	return p ;
 }
 extern "C" void *__wrap_calloc (size_t a, size_t b)
-{	void *p = __real_calloc (a, b) ;
+{	if (in_lib () && b && a > (256u << 20) / b) { errno = ENOMEM ; return nullptr ; }
+	void *p = __real_calloc (a, b) ;
 	if (p && in_lib ()) { g_os->in_lib = false ; g_os->ledger [p] = a * b ; g_os->lib_allocs ++ ; g_os->lib_alloc_bytes += a * b ; g_os->in_lib = true ; }
 	return p ;
 }
 extern "C" void *__wrap_realloc (void *o, size_t n)
 {	bool lib = in_lib () ;
+	// the simulated machine hands no single block of more than 256 MiB to the library (a parser that doubles a table for ever
+	// otherwise takes the whole sandbox with it before the watchdog sees it)
+	if (lib && n > (256u << 20)) { errno = ENOMEM ; return nullptr ; }
 	size_t old_n = 0 ;
 	if (lib && o) { auto it = g_os->ledger.find (o) ; if (it != g_os->ledger.end ()) old_n = it->second ; else old_n = n ; }
 	void *p = __real_realloc (o, n) ;
